@@ -1,5 +1,6 @@
 import ColaVerif.Lemmas.LogDetSL
 import ColaVerif.Lemmas.LogDetKrylov
+import ColaVerif.Lemmas.LogDetLanczos
 import ColaVerif.Lemmas.KrylovCompose
 
 /-!
@@ -23,13 +24,19 @@ Theorems:
   `C07_combine_mul`, `C07_combine_pow`, `C07_cholesky`, `C07_kron_exponents`,
   `C07_bdiag_multiplicities`, `C07_perm_parity`.
 
-* `C07_slogdet_krylov` — the same conclusion with the Lanczos | Arnoldi contract DISCHARGED into its
-  parts (`TrlogOfParts`): the kernel returns the exact trace (C08) of a matrix that is the logarithm of
+* `C07_slogdet_krylov` — the same conclusion with the Lanczos | Arnoldi contract REDUCED to its
+  parts (hypothesis `TrlogOfParts`): the kernel returns the exact trace (C08) of a matrix that is the logarithm of
   the represented matrix in the sense of C09; `C07_exp_trace_log` (`exp (tr log A) = det A` for every
   non-singular diagonalisable `A`), `C07_krylov_columns` (the matrix whose columns are the vectors
   `Qᵢ Pᵢ (f(θᵢ) ⊙ Pᵢ⁻¹ e₁)` returned for the identity probes IS `f(A)` when every factorisation is
   complete — which `Lemmas/KrylovCompose.lean` proves for the loop models of C14 / C15 run to Krylov
   exhaustion) — what remains a contract there is LAPACK's small eigendecomposition;
+* round 3 — `C07_lanczos_kernel_parts`: for the Lanczos kernel DEFINED from the loop model of C14
+  (`Op.lanczosKernels`, Lemmas/LogDetLanczos.lean) `TrlogOfParts` is a THEOREM (assumed: `EighContract`, the LAPACK
+  contract of `eigh` on the small tridiagonal matrix, satisfiable); `C07_slogdet_lanczos`: C07 for every tree with
+  that kernel; `C07_lanczos_kernel_answers`: it answers on every Hermitian non-singular operator for `tol = 0`,
+  cap `≥ n`; witness `C07_lanczos_kernel_witness` (`[[2,1],[1,2]]`, determinant 3).  For Arnoldi `TrlogOfParts`
+  stays a hypothesis (witness `diagLogKernels_parts`);
 * `C07_phase_exponent_not_mod_two`, `C07_diag_sum_of_logs` — regression lemmas: the exponents of the
   Kronecker / BlockDiag rules act on a complex phase; the Diagonal / Triangular rule returns `Σ log |dᵢ|`.
 
@@ -38,9 +45,9 @@ matrix), `A.triTrue` (Triangular operators are triangular — the constructor's 
 `C07_triTrue_needed`), `A.sqMembers` (members of Kronecker / BlockDiag nodes are square — true of
 every non-singular operator, `C07_sqMembers_needed`), and the contracts of the numerical kernels
 `Op.KernelsOK` (`L Lᴴ = A` with `L` lower; `A = L[p] U`; `exp(tr log A) = det A` —
-`C07_kernel_contract_needed`; the recorded Krylov defects — Lanczos on a non-positive-definite
-leaf, the batched Lanczos breakdown, Arnoldi on a complex leaf with an eigenvalue on the branch cut
-of the logarithm — are violations of the last contract by the real kernels).
+`C07_kernel_contract_needed`; the recorded Krylov defects — `krylov-blockdiag-zero-probe` (zero probe
+columns handed to a Krylov block) and `lanczos-batch-breakdown` (the batched Lanczos loop, C14) — are
+violations of the last contract by the real kernels).
 -/
 
 namespace C07
@@ -304,11 +311,14 @@ theorem C07_krylov_columns {n : ℕ} {S : Set ℂ} {A L : Matrix (Fin n) (Fin n)
 section code
 variable [DecidableEq ℂ]
 
-/-- **C07 with the Krylov contract discharged**: the same conclusion as `C07_slogdet`, where the
-hypothesis on the Lanczos | Arnoldi kernel is no longer "`exp` of its result is the determinant" but
+/-- **C07 with the Krylov contract reduced to its parts**: the same conclusion as `C07_slogdet`, where the
+hypothesis on the Lanczos | Arnoldi kernel is not "`exp` of its result is the determinant" but
 `TrlogOfParts`: its result is the trace (exact trace, C08) of a matrix that is the logarithm `lg` of
 the represented matrix in the sense of C09 (`C07_krylov_columns` + C14 / C15 for the Krylov operators).
-`lg` is any branch with `exp (lg a) = a` on `S` (`Complex.log` on `{z ≠ 0}`: `C07_exp_trace_log`). -/
+`lg` is any branch with `exp (lg a) = a` on `S` (`Complex.log` on `{z ≠ 0}`: `C07_exp_trace_log`).
+`TrlogOfParts` is still a HYPOTHESIS here; for the Lanczos kernel defined from the loop model of C14 it is PROVED
+(`C07_lanczos_kernel_parts`, `C07_slogdet_lanczos` below: only `EighContract` remains assumed); for Arnoldi it
+remains assumed (satisfiable: `diagLogKernels_parts`). -/
 theorem C07_slogdet_krylov (K : DetKernels ℂ ℂ) (lg : ℂ → ℂ) (S : Set ℂ)
     (hlg : ∀ a ∈ S, Complex.exp (lg a) = a)
     (hchol : ∀ (n : Nat) (M L : MatF ℂ), K.chol n M = .ok L →
@@ -437,3 +447,100 @@ end C07
 #print axioms C07.diagLogKernels_parts
 #print axioms C07.C07_phase_exponent_not_mod_two
 #print axioms C07.C07_diag_sum_of_logs
+
+/-! ## round 3: the Lanczos kernel defined from the loop model of C14 — `TrlogOfParts` proved -/
+
+namespace C07
+open Op MatFun Matrix KrylovCompose
+
+section lanczos
+variable [DecidableEq ℂ]
+
+/-- **`TrlogOfParts` is NOT a contract for the Lanczos kernel**: for the kernel DEFINED from the loop model of C14
+(`Op.lanczosKernels`: `Lanczos.lanczosExact` on every identity probe, `eigh` of `T`, `Q P (log θ ⊙ Pᴴ e₁)`, exact trace)
+it is a theorem — `KrylovCompose.lanczos_unary_exact` (= `C09_lanczos_path`) on every probe + `C07_krylov_columns`'s
+content + C09's logarithm.  What remains ASSUMED: `EighContract eigh` (LAPACK `eigh` on the small tridiagonal matrix:
+unitary `P`, `T P = P diag θ`), satisfiable for every size (`KrylovCompose.eighSpectral_contract`). -/
+theorem C07_lanczos_kernel_parts (eigh : Eigh ℂ) (contract : EighContract eigh) (max_iters : ℕ) (tol : ℝ) :
+    TrlogOfParts (lanczosKernels eigh max_iters tol) Complex.log {z : ℂ | z ≠ 0} :=
+  lanczosKernels_parts eigh contract max_iters tol
+
+/-- **C07 on the Lanczos path with no kernel hypothesis besides `EighContract`**: every tree, every `la`, `ta` -/
+theorem C07_slogdet_lanczos (eigh : Eigh ℂ) (contract : EighContract eigh) (max_iters : ℕ) (tol : ℝ)
+    (la : LogAlg) (ta : TraceAlg)
+    (A : Op ℂ) (hwf : A.wf = true) (hnd : A.dupSlice = false) (hh : A.HermOK)
+    (ht : A.triTrue = true) (hs : A.sqMembers = true) (s : ℂ) (l : ℝ)
+    (h : slogdetG slOps (lanczosKernels eigh max_iters tol) la ta A = .ok (s, l)) :
+    let d := Matrix.det (MatF.toMatrix A.rows A.rows A.den.f)
+    s * ((Real.exp l : ℝ) : ℂ) = d ∧
+      (d ≠ 0 → ‖s‖ = 1 ∧ l = Real.log ‖d‖ ∧ s = d / ((‖d‖ : ℝ) : ℂ)) :=
+  C07_slogdet_krylov (lanczosKernels eigh max_iters tol) Complex.log {z : ℂ | z ≠ 0} exp_clog
+    (fun n M L hc => by simp [lanczosKernels] at hc) (fun n M plu hc => by simp [lanczosKernels] at hc)
+    (lanczosKernels_parts eigh contract max_iters tol) la ta A hwf hnd hh ht hs s l h
+
+/-- the kernel answers on EVERY Hermitian non-singular operator for `tol = 0`, cap `≥ n` (no hypothesis about the runs:
+`C14_grade`), and `exp` of its answer is the determinant -/
+theorem C07_lanczos_kernel_answers (eigh : Eigh ℂ) (contract : EighContract eigh) (max_iters : ℕ) (la : LogAlg)
+    (ta : TraceAlg) (A : Op ℂ) (sq : A.rows = A.cols)
+    (herm : (MatF.toMatrix A.rows A.rows A.den.f).IsHermitian)
+    (hdet : (MatF.toMatrix A.rows A.rows A.den.f).det ≠ 0) (hn : 1 ≤ A.rows) (hcap : A.rows ≤ max_iters) :
+    ∃ t, (lanczosKernels eigh max_iters 0).trlog la ta A = .ok t ∧
+      Complex.exp t = (MatF.toMatrix A.rows A.rows A.den.f).det :=
+  lanczosKernels_answers eigh contract max_iters la ta A sq herm hdet hn hcap
+
+/-- **witness on a non-diagonal input**: for `exH` with `Lanczos` (cap 5, `tol = 0`, `eigh` = the spectral theorem) the
+rule recursion goes to the Lanczos base rule, the kernel answers, and the returned pair satisfies
+`sign · exp(logabs) = det = 3` -/
+theorem C07_lanczos_kernel_witness :
+    EighContract (eighSpectral (𝕜 := ℂ)) ∧
+    (MatF.toMatrix exH.rows exH.rows exH.den.f).det = 3 ∧
+    ∃ s l, slogdetG slOps (lanczosKernels eighSpectral 5 0) .lanczos .exact exH = .ok (s, l) ∧
+      s * ((Real.exp l : ℝ) : ℂ) = 3 := by
+  have hr : exH.rows = 2 := by simp [exH, Op.rows]
+  have hdet : (MatF.toMatrix exH.rows exH.rows exH.den.f).det = 3 := by
+    rw [det_toMatrix_two _ hr]
+    simp [exH, Op.den]
+    norm_num
+  have hherm : (MatF.toMatrix exH.rows exH.rows exH.den.f).IsHermitian := by
+    apply Matrix.IsHermitian.ext
+    intro i j
+    show star (exH.den.f j.val i.val) = exH.den.f i.val j.val
+    simp only [exH, Op.den]
+    by_cases hij : i.val = j.val
+    · simp [hij]
+    · have h' : ¬ j.val = i.val := fun e => hij e.symm
+      simp [hij, h']
+  obtain ⟨t, ht, hexp⟩ := lanczosKernels_answers eighSpectral eighSpectral_contract 5 .lanczos .exact exH
+    (by simp [exH, Op.rows, Op.cols]) hherm (by rw [hdet]; norm_num) (by rw [hr]; norm_num) (by rw [hr]; norm_num)
+  have hrun : slogdetG slOps (lanczosKernels eighSpectral 5 0) .lanczos .exact exH = .ok (slOps.ofTrLog t) := by
+    simp only [slogdetG, exH, slogdetAt, slogdetBase, resolveAuto, Op.rows, Op.cols]
+    simp only [bne_self_eq_false, Bool.false_eq_true, if_false]
+    rw [show (Op.annot Ann.selfAdjoint (Op.dense DType.c128 2 2 fun i j => if i = j then (2 : ℂ) else 1)) = exH from rfl, ht]
+    rfl
+  refine ⟨eighSpectral_contract, hdet, (slOps.ofTrLog t).1, (slOps.ofTrLog t).2, hrun, ?_⟩
+  have hsymm : ∀ i j : ℕ, (if i = j then (2 : ℂ) else 1) = star (if j = i then (2 : ℂ) else 1) := by
+    intro i j
+    by_cases hij : i = j
+    · simp [hij]
+    · have h' : ¬ j = i := fun e => hij e.symm
+      simp [hij, h']
+  have hHerm : exH.HermOK := by
+    simp only [exH, Op.HermOK, Op.HermNode]
+    refine ⟨fun _ => ⟨by simp [Op.rows, Op.cols], fun i j _ _ => ?_⟩,
+      fun _ => ⟨by simp [Op.rows, Op.cols], fun i j _ _ => ?_⟩⟩
+    · simp only [Op.den, MatV.of_f]; exact hsymm i j
+    · simp only [Op.den, MatV.of_f]; exact hsymm i j
+  have := (C07_slogdet_lanczos eighSpectral eighSpectral_contract 5 0 .lanczos .exact exH
+    (by simp [exH, Op.wf]) (by simp [exH, Op.dupSlice]) hHerm
+    (by simp [exH, Op.triTrue]) (by simp [exH, Op.sqMembers]) (slOps.ofTrLog t).1 (slOps.ofTrLog t).2 hrun).1
+  rw [hdet] at this
+  exact this
+
+end lanczos
+
+end C07
+
+#print axioms C07.C07_lanczos_kernel_parts
+#print axioms C07.C07_slogdet_lanczos
+#print axioms C07.C07_lanczos_kernel_answers
+#print axioms C07.C07_lanczos_kernel_witness
